@@ -3,21 +3,24 @@ export VERIF_EVIDENCE_DIR=/root/.cache/sfverif-trial-evidence; mkdir -p $VERIF_E
 # tools_matrix.sh [extra Cxx ...]  : for every seeded change, apply it to /repo, run its own property's quick check (plus extras),
 # undo it, and record the outcome in seeded/<id>/meta.json (detected_by) and in /verif/seeded/MATRIX.txt
 # MATRIX_ONLY="C02f C13f ..." restricts the run to those ids (their old lines in MATRIX.txt are replaced)
+# MATRIX_OUT=<file> writes there instead of seeded/MATRIX.txt and leaves meta.json alone (robustness runs at other seeds: VERIF_SEED=n)
 cd /verif
-if [ -z "$MATRIX_ONLY" ]; then : > seeded/MATRIX.txt; else for o in $MATRIX_ONLY; do sed -i "/^$o-/d" seeded/MATRIX.txt; done; fi
+M="${MATRIX_OUT:-seeded/MATRIX.txt}"
+if [ -n "$MATRIX_OUT" ]; then : > "$M"; elif [ -z "$MATRIX_ONLY" ]; then : > seeded/MATRIX.txt; else for o in $MATRIX_ONLY; do sed -i "/^$o-/d" seeded/MATRIX.txt; done; fi
 git -C /repo diff --quiet || { echo "/repo is dirty"; exit 2; }
 for d in seeded/*/; do
   id=$(basename $d); prop=${id:0:3}
   if [ -n "$MATRIX_ONLY" ]; then case " $MATRIX_ONLY " in *" ${id%%-*} "*) ;; *) continue;; esac; fi
-  git -C /repo apply /verif/$d/patch.diff || { echo "$id PATCH-FAILS" | tee -a seeded/MATRIX.txt; continue; }
+  git -C /repo apply /verif/$d/patch.diff || { echo "$id PATCH-FAILS" | tee -a "$M"; continue; }
   det=""
   for c in $prop "$@"; do
     out=$(./check.sh $c quick 2>&1); st=$?
     sig=$(echo "$out" | grep -m1 "clause=" | sed 's/.*sig=//' | cut -c1-80)
     if [ $st -eq 1 ]; then det="$det $c"; fi
-    echo "$id $c exit=$st $sig" | tee -a seeded/MATRIX.txt
+    echo "$id $c exit=$st $sig" | tee -a "$M"
   done
   git -C /repo checkout -- .
+  [ -n "$MATRIX_OUT" ] && continue
   python3 - "$d" "$det" <<'PY'
 import json,sys
 d,det=sys.argv[1],sys.argv[2].split()
@@ -25,5 +28,5 @@ m=json.load(open(d+'/meta.json')); m['detected_by']=sorted(set((m.get('detected_
 PY
 done
 (cd /verif/harness && CARGO_NET_OFFLINE=true cargo build -q --release 2>/dev/null; CARGO_NET_OFFLINE=true cargo build -q --profile relassert 2>/dev/null)  # never leave a binary built from a changed tree behind
-sort -o seeded/MATRIX.txt seeded/MATRIX.txt
+sort -o "$M" "$M"
 git -C /repo status --short | head -3
